@@ -810,6 +810,10 @@ fn exec_e2e(ops: &[String], stats: &mut Stats) -> Vec<String> {
         if e.presym {
             cmd.arg("--unstable-presymbolicate");
             stats.bump("e2e_opt_presym");
+            // repaired defect C19-presym-badcodeid: a used library whose code id text `CodeId::from_str` rejects
+            if e.files.iter().any(|f| matches!(&f.kind, FileKind::Gen(s) if f.present && s.build_id.as_ref().is_some_and(|b| b.len() <= 4))) {
+                stats.bump("e2e_opt_presym_unparsable_codeid");
+            }
         }
         if e.names.is_some() {
             stats.bump("e2e_opt_names");
